@@ -550,6 +550,14 @@ def make_suggest(shape):
             # code asks the table for
             for i in range(1, wlen):
                 ctx["ask"]["suffix"](it, [None, Str(list(word[i:]))], "pre")
+        if shape.get("preselect_base") and word is not None:
+            # the suffix table's answers for the tails and the learned choices of the word and of its proper prefixes are fixed up front: the
+            # clause speaks about them whether or not the code asks
+            for i in range(1, wlen):
+                ctx["ask"]["suffix"](it, [None, Str(list(word[i:]))], "pre")
+            sel_oracle(it, None, list(word))
+            for i in range(1, wlen):
+                sel_oracle(it, None, list(word[:i]))
         if shape.get("preconsult_emoji"):
             # fix the table answers for the whole text and for the word part up front: the clauses then speak about both, whichever the code asks first
             ctx["ask"]["emoticon"](it, [None, Str(term)], "pre")
@@ -882,6 +890,34 @@ def suggest_clauses(st, it, c, res, mode):
             if alts:
                 carry.append(z3.Implies(z3.Or([m_ for m_, _ in alts]), z3.Or([z3.And(m_, e_) for m_, e_ in alts])))
         clauses.append(("dictionary_candidates_carry_their_distance", z3.And(carry) if carry else True))
+    # ---- C09: a word without a learned choice of its own, read as a word with a learned choice followed by a known suffix (one such reading):
+    # the joined form is preselected whenever it is offered
+    if shape.get("preselect_base") and word is not None and mode == "single":
+        own_choice = orc.memo.get(("selection", key_of_elems(word)))
+        readings = []
+        for i in range(1, len(word)):
+            sfx = orc.memo.get(("suffix", key_of_elems(word[i:])))
+            lb = orc.memo.get(("selection", key_of_elems(word[:i])))
+            if sfx is not None and lb is not None and len(sfx) > 0 and len(lb) > 0:
+                readings.append((list(lb), list(sfx)))
+        if own_choice is None and len(readings) >= 1:
+            # the joined form of every reading, as a case split over the joining rule that applies to it
+            silents, offered_all, sel_is_one = [], [], []
+            for lb, sfx in readings:
+                silent, cases = ref_join(lb, sfx)
+                silents.append(silent)
+                offered_all.append(z3.Or([z3.And(cond, texts_equal_any(texts, cpre + joined + ctrail)) for cond, joined in cases]))
+                for cond, joined in cases:
+                    want = cpre + joined + ctrail
+                    for j in range(L):
+                        firstj = z3.And([seq_eq(texts[j], want)] + [z3.Not(seq_eq(texts[k], want)) for k in range(j)])
+                        sel_is_one.append(z3.And(cond, firstj, bv(sel, 64) == j))
+            quiet = z3.Or(silents + [quote])
+            # one reading: its joined form is preselected whenever offered; several: one of them is, when all of them are offered
+            clauses.append(("learned_base_choice_selects_the_joined_candidate", z3.Implies(z3.And(z3.Not(quiet), z3.And(offered_all)), z3.Or(sel_is_one))))
+            clauses.append(("cover:base_choice_joined", z3.And(z3.Not(quiet), z3.And(offered_all))))
+            if len(readings) > 1:
+                clauses.append(("cover:two_readings", z3.And(z3.Not(quiet), z3.And(offered_all))))
     # ---- C08, as the property words it: every direct candidate OFFERED for the base alone comes back joined when base + known suffix is typed
     if mode == "suffix_pair" and word is not None:
         b = shape["pair_base"]
@@ -1136,6 +1172,64 @@ def type_steps(keys, text, sel_track=True):
 def play_typed(texts_opts, commit_fn=None):
     """Type texts natively passing the previously returned selection with every key (front-end contract)."""
     raise NotImplementedError
+
+
+def base_choice_search(vs):
+    """Native: a non-preselected candidate is committed for a word; the word is then typed followed by a known suffix (same context, and a new
+    context over the same user files): whenever the joined form is offered it is the preselected one."""
+    keys = char_keys()
+    data = bundled_data()
+    cfg = {"layout": "avro_phonetic", "database": REPO + "/data", "opts": {"phonetic_suggestion": True}}
+    bases = ["t", "a", "s", "c", "z", "k", "ma", "sesh", "ami", "boi"]
+    sufs = [sk for sk in data["suffix"] if all(ch in keys for ch in sk)]
+    sufs = [sk for sk in sufs if len(sk) == 1] + [sk for sk in sufs if len(sk) == 2][:6] + [sk for sk in sufs if len(sk) > 2][:4]
+
+    def typ(t, ctx=0):
+        return [{"op": "key", "ctx": ctx, "key": keys[ch], "sel": 0} for ch in t]
+    first = run_replay_parallel([{"steps": [{"op": "new", "ctx": 0, "config": cfg}] + typ(b)} for b in bases])
+    scs, meta = [], []
+    for b, r in zip(bases, first):
+        sg = r["results"][-1].get("suggestion", {})
+        lst, sel = sg.get("list", []), sg.get("sel", 0)
+        for i, cand in enumerate(lst[:5]):
+            if i == sel:
+                continue
+            for sk in sufs:
+                steps = [{"op": "new", "ctx": 0, "config": cfg}] + typ(b) + [{"op": "commit", "ctx": 0, "index": i}] + typ(b + sk)
+                a = len(steps) - 1
+                steps += [{"op": "new", "ctx": 1, "config": cfg}] + typ(b + sk, ctx=1)
+                scs.append({"steps": steps})
+                meta.append((b, cand, sk, a))
+    for (b, cand, sk, a), sc, r in zip(meta, scs, run_replay_parallel(scs, timeout=1800)):
+        rr = r["results"]
+        if any("panic" in x for x in rr):
+            continue
+        j = join_concrete(cand, data["suffix"][sk])
+        # every reading of the text as (word with a choice, learned or derived from one while the text was typed) + known suffix is acceptable
+        store = {b: cand}
+        text = b + sk
+        for n in range(1, len(text) + 1):
+            p_ = text[:n]
+            if p_ in store:
+                continue
+            for i in range(1, len(p_)):
+                if p_[i:] in data["suffix"] and p_[:i] in store:
+                    jj = join_concrete(store[p_[:i]], data["suffix"][p_[i:]])
+                    if jj is not None:
+                        store.setdefault(p_, jj)
+        acceptable = set()
+        for i in range(1, len(text)):
+            if text[i:] in data["suffix"] and text[:i] in store:
+                jj = join_concrete(store[text[:i]], data["suffix"][text[i:]])
+                if jj is not None:
+                    acceptable.add(jj)
+        for where, x in (("the same context", rr[a]), ("a new context over the same user files", rr[-1])):
+            sg = x.get("suggestion", {})
+            lst = sg.get("list", [])
+            if j is not None and j in lst and sg.get("sel") != lst.index(j) and lst[sg.get("sel", 0)] not in acceptable:
+                return sc, x, ("%r typed and candidate %r chosen; %r (that word + the suffix %r = %r) typed in %s offers the joined form %r at index %d but preselects index %s (%r)" % (
+                    b, cand, b + sk, sk, data["suffix"][sk], where, j, lst.index(j), sg.get("sel"), lst[sg.get("sel", 0)] if lst else None)), "the learned choice of a word is not carried over to word + suffix"
+    return None
 
 
 def learn_search(vs):
@@ -1981,10 +2075,16 @@ def obl_learn(check, conv_table, thorough=False, budget_s=None, quoted_only=Fals
     shapes = base_shapes(WRAPPERS_QUICK, [1, 2] if thorough else [1], conv_table, **kw)
     shapes += base_shapes([("", "")], [3], conv_table, **dict(kw, suffixes=True, emoji_names=False, fixed={"ansi": False, "include_english": False, "smart_quote": False}))
     shapes += special_term_shapes([t for t in SPECIAL_TERMS if any(ch.isalnum() for ch in t)], **dict(kw, fixed={"ansi": False, "include_english": False}))
-    check.bounds["learn_roundtrip"] = dict(word="1%s symbolic letters/digits; 3 with suffix split points" % ("-2" if thorough else ""),
+    # "... for that word followed by a known suffix it points at the correspondingly joined candidate": words of 2 and 3 letters, the learned
+    # choices of the prefixes and the table's answers for the tails any
+    shapes += base_shapes([("", "")], [2, 3], conv_table, **dict(kw, mode="single", suffixes=True, preselect_base=True, emoji_names=False, dict_max=1,
+                                                                 fixed={"ansi": False, "include_english": False, "smart_quote": False}))
+    check.bounds["learn_roundtrip"] = dict(word="1%s symbolic letters/digits; 3 with suffix split points; 2-3 letters read as learned word + known suffix" % ("-2" if thorough else ""),
                                            wrappers=[s["pre"] + "W" + s["trail"] for s in shapes][:10], commit="any index other than the preselected one",
                                            data="0-1 dictionary word, emoji name present or absent, earlier learned entry any", options="English, smart quotes symbolic")
-    run_suggest_obligation(check, "learn_roundtrip", shapes, ["cover:learn"], confirmers={"learned_choice_is_preselected_next_time": learn_search, "other_learned_entries_survive_a_commit": survive_search}, budget_s=budget_s)
+    run_suggest_obligation(check, "learn_roundtrip", shapes, ["cover:learn", "cover:base_choice_joined"],
+                           confirmers={"learned_choice_is_preselected_next_time": learn_search, "other_learned_entries_survive_a_commit": survive_search,
+                                       "learned_base_choice_selects_the_joined_candidate": base_choice_search}, budget_s=budget_s)
 
 
 # ------------------------------------------------------------------------- C03: suggestions off
@@ -2674,6 +2774,41 @@ def fixed_list_search(vs):
         if st.get("buffer") and (not lst or lst[0] != st["buffer"]):
             return sc, last, ("fixed mode (traditional joining on, automatic vowels %s, automatic chandrabindu %s): the keys of %r compose %r; the first candidate is %r" % (
                 vowel, chandra, t, st["buffer"], lst[:1])), "fixed assembly: first_candidate_is_the_composed_text"
+    # the list is made from the word as it is now, under the options in force now: a word typed, given up (erased key by key, erased at once,
+    # committed or finished), the options changed while idle, the word typed again - against a context created with the new options
+    hist_scs, hist_meta = [], []
+    for w in ("হাসি", "কুল", "আগুন", "ক"):
+        if any(ch not in keys for ch in w):
+            continue
+        tw = [{"op": "key", "key": keys[ch][0], "mod": keys[ch][1]} for ch in w]
+        for how, ending in (("erased with BackSpace", [{"op": "backspace"}] * len(w)), ("erased with Ctrl+BackSpace", [{"op": "backspace", "ctrl": True}]),
+                            ("committed", [{"op": "commit", "index": 0}]), ("finished", [{"op": "finish"}]), ("erased but for one letter and typed out again", None)):
+            for flip in ({"ansi": True}, {"kar": True}, {"english": True}, {"smart_quote": False}, {}):
+                o1 = {"fixed_suggestion": True, "smart_quote": True, "english": False, "ansi": False, "kar": False}
+                c1 = {"layout": os.path.join(REPO, "data", "Probhat.json"), "database": REPO + "/data", "opts": o1}
+                c2 = dict(c1, opts=dict(o1, **flip))
+                if ending is None:
+                    if flip or len(w) < 2:
+                        continue
+                    steps = [{"op": "new", "ctx": 0, "config": c1}] + [dict(x, ctx=0) for x in tw + [{"op": "backspace"}] * (len(w) - 1) + tw[1:]] + [{"op": "get_state", "ctx": 0}]
+                else:
+                    steps = [{"op": "new", "ctx": 0, "config": c1}] + [dict(x, ctx=0) for x in tw + ending] + [{"op": "update", "ctx": 0, "config": c2}] + [dict(x, ctx=0) for x in tw] + [{"op": "get_state", "ctx": 0}]
+                a = len(steps) - 1
+                steps += [{"op": "new", "ctx": 1, "config": c2}] + [dict(x, ctx=1) for x in tw] + [{"op": "get_state", "ctx": 1}]
+                hist_scs.append({"steps": steps})
+                hist_meta.append((w, how, flip, a))
+    for (w, how, flip, a), sc, r in zip(hist_meta, hist_scs, run_replay_parallel(hist_scs)):
+        rr = r["results"]
+        if any("panic" in x for x in rr):
+            px = [x for x in rr if "panic" in x][0]
+            return sc, px, "fixed mode: %r typed, %s, typed again: panic: %s" % (w, how, px["panic"]), None
+        x, y = rr[a].get("state", {}), rr[-1].get("state", {})
+        if x.get("suggestions") != y.get("suggestions"):
+            lx, ly = [t for k, t, n in x.get("suggestions", [])], [t for k, t, n in y.get("suggestions", [])]
+            all_emoji = set(e for v in data["emoji_bengali"].values() for e in v)
+            role = "fixed assembly: ansi_offers_no_emoji_or_raw_text" if flip.get("ansi") and any(t in all_emoji for t in lx) else None
+            return sc, [rr[a], rr[-1]], ("fixed mode: %r typed and %s, options changed by %s through update_engine (idle), %r typed again: the list is %s; "
+                                         "a context created with the new options shows %s" % (w, how, json.dumps(flip), w, lx, ly)), role
     res = run_replay_parallel(scs)
 
     def curl(t, closing):
